@@ -368,6 +368,31 @@ pub fn run(ctx: &Ctx, out: &mut Out, prop: &str) {
         }
     }
 
+    // (3b) inputs that still carry RFC framing ("ROUGHTIM" + length): from_bytes takes the
+    // message with framing removed, so these are just byte strings to be judged like any other
+    for k in 0..ctx.share(60_000, 600_000) {
+        let rm = random_valid(&mut rng, 64, true);
+        let mut b = frame(&rm.encode());
+        match k % 4 {
+            0 => b.truncate(rng.usize_below(24.min(b.len() + 1))),
+            1 => {
+                let l = rng.usize_below(b.len() + 1);
+                b.truncate(l)
+            }
+            2 => {
+                let i = 8 + rng.usize_below(4);
+                b[i] ^= 1 << rng.below(8);
+            }
+            _ => {}
+        }
+        out.case(fnv64(&b), b.len() >= 8);
+        out.obs("framed_inputs", 1);
+        let acc = check_decode(out, prop, &b, "framed-input");
+        if c06 && acc {
+            check_display(out, &b, "framed-input");
+        }
+    }
+
     // (4) C06: random strings of every length class, and nested-garbage carriers
     if c06 {
         for k in 0..ctx.share(400_000, 3_000_000) {
